@@ -1299,7 +1299,7 @@ REQUIRED_THEOREMS = ['CfVerif.C06.' + t for t in (
     'gen_caller_call', 'every_registered_subscriber_is_told_exactly_once', 'subscribers_are_told_what_is_due',
     'live_iteration_skips_the_next_subscriber',
     'gen_write_data_ownership', 'refill_cannot_touch_started_requests', 'copying_constructor_ignores_refills',
-    'queued_write_aliases_caller_buffer_counterexample',
+    'queued_write_aliases_caller_buffer_counterexample', 'refills_are_invisible',
     'd9_lock_left_held', 'd9_wedged')]
 TRUSTED = ['harness/corr/c06.py extractor + correspondence (fake `cf` boundary object: add_port_callback, disconnected, send_packet with the '
            'size check of Crazyflie.send_packet; CheckedLock turns a blocking acquire of a held lock into `hang`; one MemProxy object per '
@@ -2606,7 +2606,7 @@ def aliasing_search(ctx):
     """"the device memory equals the written data" = the data at the time of the call: the caller refills, in place, the
     (mutable) buffer it passed to write() - right after write() returned, or after the k-th reply - and the device image
     must still be the data of the call.  Writes that start at once (all boundary lengths) and writes queued behind
-    another one (known finding D65: a waiting request still refers to the caller's buffer)."""
+    another one (D65, repaired: before the repair a waiting request still referred to the caller's buffer)."""
     rng = ctx.rng
     found = False
     for n in WRITE_LENS[1:]:
